@@ -568,8 +568,25 @@ func init() {
 			jarr(jarr(jstr("EMS_POWER_PV"))), // a response tag
 			jarr(jarr(jnum("12345"), jstr("Error"), jstr("ERR_FORMAT"))),
 		}
+		for _, el := range []*jnode{jnull(), jstr("1"), jbool(true), jarr(), jobj(), jnum("1.5"), jnum("256"), jnum("-1"), jnum("255.00000000000000001"), jnum("1e-1")} {
+			bad = append(bad, jarr(jarr(jstr("WB_REQ_DATA"), jarr(jarr(jstr("WB_EXTERN_DATA"), jarr(jnum("1"), el, jnum("3")))))),
+				jarr(jarr(jnum("12345"), jstr("ByteArray"), jarr(el))), jarr(jobj().set("Tag", jnum("12345")).set("DataType", jstr("ByteArray")).set("Value", jarr(jnum("0"), el))))
+		}
 		for i, b := range bad {
 			run(b, fmt.Sprintf("must-reject #%d", i), nil, true)
+		}
+		// data type names are case sensitive: other spellings are no type names — as a type they are refused, as the
+		// second element of a pair they are the string value
+		for _, d := range definedTypes {
+			for _, alt := range []string{strings.ToLower(d.String()), strings.ToUpper(d.String()), strings.Title(strings.ToLower(d.String())), " " + d.String(), d.String() + " "} {
+				if alt == d.String() {
+					continue
+				}
+				run(jarr(jarr(jnum("12345"), jstr(alt), jnum("1"))), "type name in another spelling, as type", nil, true)
+				run(jarr(jobj().set("Tag", jnum("12345")).set("DataType", jstr(alt))), "type name in another spelling, object", nil, true)
+				strTag := rscp.RSCP_REQ_SET_ENCRYPTION_PASSPHRASE
+				run(jarr(jarr(jstr(strTag.String()), jstr(alt))), "type name in another spelling, as value", []rscp.Message{{Tag: strTag, DataType: rscp.CString, Value: alt}}, false)
+			}
 		}
 		// a tag written as a string of digits is that decimal number (leading zeros included), in every notation; any other
 		// spelling of a number (prefix, sign, separators, blanks, exponent) is no tag
